@@ -1017,10 +1017,20 @@ def search_rescale_megno(c, rebound):
             lr = vb.lrescale
             realsame = all(d2h(a) == d2h(b) for a, b in zip(state_of(sb, range(3)), state_of(ss, range(3))))
             # exp(lrescale)*delta_big must equal (9e99/1e-10)*delta_small component by component
-            fac = math.exp(lr - math.log(9e99 / 1e-10))
             A, B = var_state(vb, range(3)), var_state(vs, range(3))
             sc = max(abs(x) for x in B)
-            e = max(abs(a * fac - b) for a, b in zip(A, B)) / sc
+            lfac = (lr - vs.lrescale) - math.log(9e99 / 1e-10)      # log of exp(lr_big)/exp(lr_small)/ratio
+            e = 0.0
+            for a, b in zip(A, B):
+                if not (a == a and b == b) or abs(a) == float("inf"):
+                    e = float("inf")
+                    continue
+                # a*exp(lfac) without overflow: split the exponent
+                try:
+                    av = a * math.exp(lfac / 2) * math.exp(lfac / 2)
+                except OverflowError:
+                    av = float("inf")
+                e = max(e, abs(av - b) / sc)
             worst = max(worst, e)
             nmax = max(abs(x) for x in var_state(nb, range(3)))
             res["%d/%s" % (s, integ)] = {"lrescale": lr, "rel": float("%.3g" % e), "max_component_after": max(abs(x) for x in A),
